@@ -86,7 +86,7 @@ func init() {
 	}
 	sup.Register(&sup.Check{
 		Prop: "C14", Level: "exploration",
-		Rule: "(real time) each scenario owns a bucket (in-memory / on-disk, 2 collections, a live feed on each); a deadline 2-3 s ahead is introduced through one of 19 entry points (relative or absolute form) in one of 12 order classes (only deadline; a later deadline of another key set before / after it through Set or through any of the 19 entry points, far Touch included; shortened or lengthened by a rewrite or a Touch; kept by PreserveExpiry; cleared by a plain rewrite or by delete + re-create; already past; same key without expiry in the sibling collection); GetExpiry must report the expiry in force; then only reads poll the key: a read that completes before second T and reports the key missing is a violation (sound under any load), and by T+3 s the document must be a tombstone and its deletion event must have reached the feed, or - for lengthened / cleared expiries - must still be readable, with a canary timer measuring scheduler lateness (> 500 ms makes the scenario inconclusive); (expiry in force, sequential) engine A judges GetExpiry after every entry point and pre-state; (reopen) documents with a pending or overdue deadline survive a kill / close and are tombstoned after reopen in a fresh process; cell = (introducing entry point, order class, relative/absolute)",
+		Rule: "(real time) each scenario owns a bucket (in-memory / on-disk, 2 collections, a live feed on each); a deadline 2-3 s ahead is introduced through one of 19 entry points (relative or absolute form) in one of 13 order classes (only deadline; a later deadline of another key set before / after it through Set or through any of the 19 entry points, far Touch included; shortened or lengthened by a rewrite or a Touch; kept by PreserveExpiry; cleared by a plain rewrite or by delete + re-create; already past; same key without expiry in the sibling collection; deadline in a collection that was swept once, dropped and created again); GetExpiry must report the expiry in force; then only reads poll the key: a read that completes before second T and reports the key missing is a violation (sound under any load), and by T+3 s the document must be a tombstone and its deletion event must have reached the feed, or - for lengthened / cleared expiries - must still be readable, with a canary timer measuring scheduler lateness (> 500 ms makes the scenario inconclusive); (expiry in force, sequential) engine A judges GetExpiry after every entry point and pre-state; (reopen) documents with a pending or overdue deadline survive a kill / close and are tombstoned after reopen in a fresh process; cell = (introducing entry point, order class, relative/absolute)",
 		Assumptions: []string{"inherently wall-clock: decided on this VM's clock; 'a few seconds' is fixed at B = 3 s (a correctly armed timer fires within 1 s of T)", "every other deadline of the same bucket is absent or >= T+8 s, so a wrongly armed timer cannot be mistaken for lateness"},
 		Parts: append(append([]sup.Part{rtPart(20, 300)}, c14SeqParts()...), crashPart("pending-expiry", 30, 300, pendingExpiryScenario)),
 		Floor: func(tier string, m *sup.Merged) string {
